@@ -331,13 +331,16 @@ class GraphState:
         - Name is new (not previously set), or
         - Value is different from previous value
         """
+        from hypergraph.nodes.base import _EMIT_SENTINEL
+
         old_value = self.values.get(name)
         is_new = name not in self.values
 
         self.values[name] = value
 
-        # Only increment version if value actually changed
-        if is_new:
+        # Only increment version if value actually changed.
+        # An emit signal carries no data: every emission is a new production.
+        if is_new or value is _EMIT_SENTINEL:
             self.versions[name] = self.versions.get(name, 0) + 1
         else:
             # Defensive comparison for types like numpy arrays
